@@ -470,8 +470,10 @@ Proof.
   - expose. split; [|exact I]. apply legal_put_same with st; [solve_quiet|exact Hs|reflexivity|reflexivity].
 Qed.
 
+Definition never_suspends (orc : oracle) : Prop := forall i t n, orc i t n <> RSuspend.
+
 Lemma legal_run_task orc s id i t a :
-  running_task_in_running_stage s ->
+  running_task_in_running_stage s \/ never_suspends orc ->
   chain_legal (w_stages s) (w_status s) (h_commits (handle_run_task orc s id i t a)).
 Proof.
   intros Inv. unfold handle_run_task.
@@ -484,11 +486,14 @@ Proof.
   destruct (is_complete (w_status s)). { expose. split; [apply legal_quiet; solve_quiet|exact I]. }
   destruct (status_eqb (w_status s) PAUSED). { expose. split; [apply legal_quiet; solve_quiet|exact I]. }
   cbn [h_commits].
-  assert (s_status st = RUNNING) as Hst.
-  { apply (Inv i st tk Hs); [eapply nth_error_In; exact Ht|exact G]. }
   destruct (orc i t (count_execs s i t)) eqn:R;
     try (apply legal_handle_exception; exact Hs);
-    try (apply legal_process_result; [exact Hs|exact Ht|exact G|try exact I; exact Hst]).
+    try (apply legal_process_result; [exact Hs|exact Ht|exact G|exact I]).
+  (* RSuspend: the only unvalidated status assignment *)
+  apply legal_process_result; [exact Hs|exact Ht|exact G|].
+  destruct Inv as [Inv|Ns].
+  - apply (Inv i st tk Hs); [eapply nth_error_In; exact Ht|exact G].
+  - exfalso. apply (Ns i t (count_execs s i t)). exact R.
 Qed.
 
 (* ---- CompleteStage: join tracking (benign re-writes of downstream stages) then the validated status write ---- *)
@@ -712,7 +717,7 @@ Qed.
 Definition is_jump (m : msg) : bool := match m with MJumpToStage _ _ _ _ | MRestartStage _ => true | _ => false end.
 
 Lemma legal_handle orc s r :
-  running_task_in_running_stage s -> is_jump (q_msg r) = false ->
+  running_task_in_running_stage s \/ never_suspends orc -> is_jump (q_msg r) = false ->
   chain_legal (w_stages s) (w_status s) (h_commits (handle orc s r)).
 Proof.
   intros Inv Hj. unfold handle. destruct (q_msg r); try discriminate.
@@ -751,11 +756,12 @@ Proof. destruct ss; simpl; [auto|]. intros E1 E2. rewrite E1, E2. auto. Qed.
 Lemma stages_pre p s : w_stages (apply_pre p s) = w_stages s /\ w_status (apply_pre p s) = w_status s.
 Proof. destruct p as [[i t]|]; split; reflexivity. Qed.
 
-Lemma inv_bump id s : running_task_in_running_stage s -> running_task_in_running_stage (bump_attempts id s).
-Proof. intros H i st tk. apply H. Qed.
+Lemma inv_bump id s orc : running_task_in_running_stage s \/ never_suspends orc ->
+  running_task_in_running_stage (bump_attempts id s) \/ never_suspends orc.
+Proof. intros [H|H]; [left; intros i st tk; apply H|right; exact H]. Qed.
 
 Lemma delivery_chain orc s id do_ack d :
-  running_task_in_running_stage s ->
+  running_task_in_running_stage s \/ never_suspends orc ->
   (forall r, find_row s id = Some r -> is_jump (q_msg r) = false) ->
   delivery_commits orc s id do_ack = Some d ->
   d_poll d = [OBump id] /\ chain_legal (w_stages s) (w_status s) (d_rest d).
@@ -768,7 +774,7 @@ Proof.
     destruct do_ack; [|exact I]. simpl. split; [apply legal_refl|exact I].
   - intros H. inversion H. simpl. split; [reflexivity|].
     apply chain_legal_app.
-    + apply (legal_handle orc (bump_attempts id s)); [apply inv_bump, Inv|]. simpl. apply (Hj r0). reflexivity.
+    + apply (legal_handle orc (bump_attempts id s)); [apply inv_bump; exact Inv|]. simpl. apply (Hj r0). reflexivity.
     + apply chain_legal_quiet. destruct (h_raised _); [constructor|].
       constructor; [reflexivity|]. destruct do_ack; constructor; [reflexivity|constructor].
 Qed.
@@ -786,8 +792,8 @@ Lemma not_jump_rows s id :
   forall r, find_row s id = Some r -> is_jump (q_msg r) = false.
 Proof. intros H r Hr. destruct (is_jump (q_msg r)) eqn:E; [|reflexivity]. exfalso. apply H. eauto. Qed.
 
-Theorem commit_legal orc s a :
-  running_task_in_running_stage s -> ~ delivers_jump s a ->
+Theorem commit_legal_gen orc s a :
+  running_task_in_running_stage s \/ never_suspends orc -> ~ delivers_jump s a ->
   pairwise_legal s (step_trace orc s a).
 Proof.
   intros Inv Hj. destruct a; simpl in *.
@@ -814,6 +820,15 @@ Proof.
   - split; [|exact I]. rewrite stages_apply_commit, wf_apply_commit. apply legal_quiet. apply quiet_pushes.
   - split; [apply legal_refl|exact I].
 Qed.
+
+Theorem commit_legal orc s a :
+  running_task_in_running_stage s -> ~ delivers_jump s a -> pairwise_legal s (step_trace orc s a).
+Proof. intros H. apply commit_legal_gen. left. exact H. Qed.
+
+(* for tasks that never suspend the statement needs no invariant at all: it holds in EVERY state *)
+Theorem commit_legal_nosuspend orc s a :
+  never_suspends orc -> ~ delivers_jump s a -> pairwise_legal s (step_trace orc s a).
+Proof. intros H. apply commit_legal_gen. right. exact H. Qed.
 
 (* completed is final: in a legal step a completed stage / task / workflow status does not change *)
 Lemma legal_completed_final l w l' w' :
